@@ -606,7 +606,25 @@ def main():
             undecided.append('%s: proof inconclusive - %d obligation(s) fail, but the unit calls %s, which is outside the unit and has no contract (added as a stub with an arbitrary result)'
                              % (r.unit, len(r.failures), ', '.join(blind)))
             continue
+        # functions that contain MORE format!(..) expressions rewritten into an arbitrary string (rule R4) than on the pinned
+        # tree (spec/r4_baseline.json): a text the contracts know nothing about has entered the function, and a failed
+        # obligation of that function only says that the proof needs to know what the text is - inconclusive, not a violation
+        # (harmless H20: `let binding = format!(..); out += &binding;` for `out += &format!(..);`)
+        fresh_text = set()
+        try:
+            r4base = json.load(open(os.path.join(VERIF, 'spec', 'r4_baseline.json')))
+        except Exception:
+            r4base = {}
+        for fn in (r.info or {}).get('functions', []):
+            if fn.get('mode') == 'prove' and fn.get('r4', 0) > r4base.get('%s::%s' % (r.unit, fn['fn']), 0):
+                fresh_text.add(fn['fn'])
+        dropped = [f for f in r.failures if fresh_text and ((f.get('site') or {}).get('fn') in fresh_text or (f.get('clause') or {}).get('fn') in fresh_text)]
+        if dropped:
+            undecided.append('%s: proof inconclusive - %d obligation(s) of %s fail, but the function now builds a text with a format!(..) that no contract speaks of (rule R4 makes it an arbitrary string)'
+                             % (r.unit, len(dropped), ', '.join(sorted(fresh_text))))
         for f in r.failures:
+            if f in dropped:
+                continue
             rel = relevant(f, prop, cfg)
             if rel is None:
                 undecided.append('%s: proof-internal obligation failed (%s)' % (r.unit, obligation_name(f)))
